@@ -9,7 +9,7 @@ import (
 func init() {
 	add(&runner.Spec{
 		Prop: "C11",
-		Rule: "call alphabet of 48 calls over the whole public API (Marshal ok / marshaler error / recovered marshaler panic / a marshaler that re-enters the library / unsupported type / cyclic value; MarshalIndent; Colorize, Debug, UnorderedMap, DisableHTMLEscape+DisableNormalizeUTF8, NoEscape; MarshalContext with two queries and none; a reused Encoder incl. a failing value; outputs of 2 KiB and 256 KiB; Unmarshal ok / shallow and deep syntax error / type error / ,string error / duplicate keys; first-win option; UnmarshalContext; UnmarshalNoEscape; a reused Decoder after a type error and after a first-win call; a reused Path: Extract ok / failing / Unmarshal / Get; Compact/Indent ok and failing; Valid). Every history of length 2 (quick) / up to 3 (thorough), each under the default pool answers and every single deviation (fresh object / second most recent object); then explicit-state breadth-first search to depth 3 / 5 (partitioned by the first call; 3000 / 20000 states per partition) with states deduplicated on the canonical dump of type caches, query caches, pooled objects and handle state. Oracle: every call's result equals its result as the first call after a reset; the reset hook itself is validated per shard against a fresh process; the pool shim counts objects put into a pool that already holds them (no call may do that). Handles (c11.handles): every sequence of 2..3 (thorough 4) steps on ONE Decoder - 5 documents (valid, wrong types, truncated) x 10 destinations incl. three struct types of identical layout, nil pointers, a non-pointer and nil, under whole-input reads and reads of 5 bytes - each step compared with a fresh Decoder reading exactly what the reused one has not consumed (Buffered() + the rest of the reader); every sequence of 2..3 (4) steps on ONE Encoder (values, failing values, SetIndent, SetEscapeHTML, per-call options) compared with a fresh Encoder brought to the same settings.",
+		Rule: "call alphabet of 75 calls over the whole public API (Marshal ok / marshaler error / recovered marshaler panic / a marshaler that re-enters the library / unsupported type / cyclic value; MarshalIndent; Colorize, Debug, UnorderedMap, DisableHTMLEscape+DisableNormalizeUTF8, NoEscape; MarshalContext with two queries and none; a reused Encoder incl. a failing value; outputs of 2 KiB and 256 KiB; Unmarshal ok / shallow and deep syntax error / type error / ,string error / duplicate keys; first-win option; UnmarshalContext; UnmarshalNoEscape; a reused Decoder after a type error and after a first-win call; a reused Path: Extract ok / failing / Unmarshal / Get; Compact/Indent ok and failing; Valid). Every history of length 2 (quick) / of length 2 and a fixed thirty-second of those of length 3 (thorough), each under the default pool answers and every single deviation (fresh object / second most recent object); then explicit-state breadth-first search to depth 3 / 4 (partitioned by the first call; 6000 / 9000 states per partition) with states deduplicated on the canonical dump of type caches, query caches, pooled objects and handle state. Oracle: every call's result equals its result as the first call after a reset; the reset hook itself is validated per shard against a fresh process; the pool shim counts objects put into a pool that already holds them (no call may do that). Handles (c11.handles): every sequence of 2..3 (thorough 4) steps on ONE Decoder - 5 documents (valid, wrong types, truncated) x 10 destinations incl. three struct types of identical layout, nil pointers, a non-pointer and nil, under whole-input reads and reads of 5 bytes - each step compared with a fresh Decoder reading exactly what the reused one has not consumed (Buffered() + the rest of the reader); every sequence of 2..3 (4) steps on ONE Encoder (values, failing values, SetIndent, SetEscapeHTML, per-call options) compared with a fresh Encoder brought to the same settings.",
 		StatesAre: "explicit-state search: distinct canonical library states (bfs_states) / distinct call results",
 		Assume:    append([]string{"deterministic LIFO pool shim replaces sync.Pool (build overlay); pool answers are choice points", "reset hook (build tag verif) validated against fresh-process results (traces_validated_against_impl)"}, commonAssume...),
 		Jobs: func(tier string) []runner.Job {
